@@ -139,7 +139,9 @@ P("C07", module="AJ.Props.C07All", extra=[("AJ.Props.SlotCor", ["C07"]), ("AJ.Pr
   "in both directions unless it contains a NaN (nan_not_equal: the exception is real); json_values_are_rawfree / json_keys_within_limit / json_no_nan: what every JSON-parsed document satisfies, for any result code; "
   "C07.json_of_document and msgpack_to_json: the other direction (a document read from MessagePack, serialized as JSON and read back).",
   level_note="known finding: raw control characters in serializeJson's text (C02); msgpack_to_json assumes no repeated keys (a document with a repeated key does not compare equal to itself, C18 finding)",
-  suites=lambda tier: [S.RoundTripSuite(cfg=DEF)])
+  suites=lambda tier: [S.RoundTripSuite(cfg=DEF),
+                       # the bytes read back from every kind of source (piecewise std::istream included), and 32-bit string headers in a build with 2-byte slot ids
+                       S.MpDeSuite(cfg=DEF, n=500 if tier == "quick" else 40000), S.RoundTripSuite(cfg=G["len4id2"], n=120 if tier == "quick" else 5000)])
 
 P("C08", level_text="Theorem: for every raw-free document within the 64-bit/32-bit limits, an independent decoder written from the MessagePack specification decodes "
   "serializeMsgPack's output to exactly one object denoting the document (integers by value and sign, strings byte-exact, floats bit-exact or the integer of the same value, narrowing of "
@@ -282,9 +284,10 @@ P("C04", module="AJ.Props.C04All", extra=[("AJ.Props.C04", ["C04"]), ("AJ.Props.
   level_note="document-level copy-assignment/swap/move (which also exchange allocators) rest on the correspondence; a source object with a repeated key (only reachable through MessagePack input) is copied with the "
   "repetition collapsed - the copy theorems carry the hypothesis NoDupKeys, see DESIGN 0.3",
   suites=lambda tier: [S.HistSuite(cfg=G["default"]), S.HistSuite(cfg=G["tiny1"], nh=40 if tier == "quick" else 2000), S.HistSuite(cfg=G["id1"], nh=30 if tier == "quick" else 2000),
-                       S.LimitSuite(cfg=G["id1c10"]), S.HistSuite(cfg=G["nolonglong"], nh=25 if tier == "quick" else 1500), S.CopyEqSuite(cfg=DEF)] +
-  ([S.HistSuite(cfg=G[g], nh=1500) for g in ("tiny2", "id1c10", "id1i3", "len1", "len4")] if tier == "thorough" else []),
-  partial=["document-level copy/swap/move as theorems"])
+                       S.LimitSuite(cfg=G["id1c10"]), S.HistSuite(cfg=G["nolonglong"], nh=25 if tier == "quick" else 1500), S.CopyEqSuite(cfg=DEF),
+                       # documents filled by deserializeJson: keys and strings with an embedded NUL whose prefix is already stored, repeated keys, member reuse
+                       S.JsonDocSuite(cfg=DEF, n=400 if tier == "quick" else 40000), S.PairKeySuite(cfg=DEF)] +
+  ([S.HistSuite(cfg=G[g], nh=1500) for g in ("tiny2", "id1c10", "id1i3", "len1", "len4")] if tier == "thorough" else []))
 
 P("C05", module="AJ.Props.C05All", extra=[("AJ.Props.C05", ["C05"]), ("AJ.Props.C05Doc", ["C05"]), ("AJ.Props.C05Copy", ["C05"]), ("AJ.Props.C05Deser", ["C05"]), ("AJ.Props.C05MpDeser", ["C05"]), ("AJ.Props.C05FDeser", ["C05"]), ("AJ.Props.C05FMpDeser", ["C05"])],
   level_text="Theorems at the slot-pool level for every state reachable under every failure oracle (one-shot positions and fail-from-k): a failed allocation changes no "
@@ -378,7 +381,7 @@ P("C14", module="AJ.Props.C14All", extra=[("AJ.Props.C04", ["C14"]), ("AJ.Props.
   "with five string source kinds for values AND keys (std::string, string_view and JsonString slices of longer buffers, char* in exactly-sized blocks, linked JsonString) and must give "
   "identical observations incl. conversions and termination of every string handed out.",
   level_note="numeric conversion of strings (as<T>() on a string) is compared across kinds on the implementation; the theorems are about documents, not about the adapters' overload resolution",
-  suites=lambda tier: [S.StringKindSuite(cfg=DEF), S.HistSuite(cfg=G["default"], nh=30 if tier == "quick" else 1500), S.DeserShareSuite(cfg=G["tiny2"])])
+  suites=lambda tier: [S.StringKindSuite(cfg=DEF), S.HistSuite(cfg=G["default"], nh=30 if tier == "quick" else 1500), S.DeserShareSuite(cfg=G["tiny2"]), S.PairKeySuite(cfg=DEF)])
 
 for pid in list(PROPS):
     if not PROPS[pid]["theorems"]:
